@@ -181,7 +181,18 @@ pub fn plan_pipeline_case(check: &str, tier: Tier, seed: u64, idx: u64) -> Plan 
     } else {
         (gen_seed, profile)
     };
-    let mut scenario = workload::generate(gen_seed, &gen_opts(profile, tier));
+    // One case in 32 is a LARGE block (up to 12 transactions quick / 20 thorough, up to 8 workers): longer
+    // dependency chains, several finality batches, more overlapping rewinds. Decided by a value derived
+    // from (seed, idx) alone so that every other case is exactly what it was before this was added.
+    // VERIF_LARGE=<n> (scratch runs only) makes it one case in n.
+    let large_every = std::env::var("VERIF_LARGE").ok().and_then(|v| v.parse::<u64>().ok()).unwrap_or(32).max(1);
+    let large = !c04_enum && derive(seed, 0xb16b_0000 ^ idx) % large_every == 0;
+    let mut opts = gen_opts(profile, tier);
+    if large {
+        opts.max_txs = if tier == Tier::Quick { 12 } else { 20 };
+        opts.max_workers = 8;
+    }
+    let mut scenario = workload::generate(gen_seed, &opts);
     let mut want = PipelineWant::default();
     let mut group = profile.name();
     match check {
